@@ -1076,6 +1076,34 @@ pub fn text_family(kind: usize, len: usize) -> Vec<u8> {
                 v.push(b"acgt"[(next() % 4) as usize]);
             }
         }
+        13 => {
+            // Fibonacci byte frequencies (1, 1, 2, 3, 5, ... ): the unrestricted Huffman tree of a block is
+            // deeper than the 15-bit limit, so the length-limiting paths of the tree predictor run
+            let mut counts: Vec<usize> = vec![1, 1];
+            while counts.len() < 24 {
+                let n = counts.len();
+                counts.push(counts[n - 1] + counts[n - 2]);
+            }
+            let total: usize = counts.iter().sum();
+            let mut left = counts.clone();
+            let mut remaining = total;
+            while remaining > 0 && v.len() < len {
+                // deterministic interleaving proportional to the remaining counts
+                let mut pick = (next() as usize * 7919 + v.len()) % remaining;
+                for (sym, l) in left.iter_mut().enumerate() {
+                    if pick < *l {
+                        *l -= 1;
+                        remaining -= 1;
+                        v.push(0x30 + sym as u8);
+                        break;
+                    }
+                    pick -= *l;
+                }
+            }
+            while v.len() < len {
+                v.push(0x30 + 23);
+            }
+        }
         10 => {
             // periodic data with periods 1..=8 (single distance code per block for some compressors)
             let mut period = 1;
